@@ -10,7 +10,7 @@
    [feed_consistent ops]: two arrival events are the same event or concern disjoint sequence numbers
    (what the sequence allocator guarantees, C07).  [ops_wf i ops]: unused ranges are lo <= hi and do not
    straddle the initial sequence i. *)
-From SG Require Import Base.Prelude C08.SkippedSet C08.SeqBuffer C08.SeqBufferInv C08.SeqBufferCons C08.SeqBufferThms.
+From SG Require Import Base.Prelude C08.SkippedSet C08.SeqBuffer C08.SeqBufferInv C08.SeqBufferCons C08.SeqBufferThms C08.ChanLayer C08.ChanLayerProofs.
 Open Scope N_scope.
 
 (* exactly once, first half -- for every operation list whatsoever: no sequence is forwarded to the
@@ -60,6 +60,23 @@ Theorem C08_seqbuf_late_delivered : forall i m ops k s a, let st := run (init i 
   /\ next st' = next st /\ pending st' = pending st.
 Proof. exact thm_late. Qed.
 Print Assumptions C08_seqbuf_late_delivered.
+
+(* ... and reaches every open feed: in any state reached by any interleaving of buffer operations and lazy
+   channel-cache creations ([XOpen]: validFrom = highCacheSequence + 1, possibly above the skipped sequence), for
+   any assignment [chf] of channels to documents, the late arrival is forwarded exactly once, flagged late, and
+   every active cache of one of the document's channels (and of "*") gets it on its late-sequence log WHATEVER
+   its validFrom -- so every feed that registered on that log before reads it (GetLateSequencesSince) *)
+Theorem C08_seqbuf_late_reaches_open_feeds : forall chf i m xops k s a,
+  let x := xrun chf (xinit i m) xops in
+  sk_mem s (skipped (x_buf x)) = true ->
+  let x' := xstep chf x (XBuf (Arrive k s a)) in
+  new_dl (x_buf x) (x_buf x') = [mkD k s 0 true true]
+  /\ (k = KDoc -> forall c, In c (x_chans x) -> c_id c = 0 \/ In (c_id c) (chf s) ->
+        exists c', In c' (x_chans x') /\ c_id c' = c_id c /\ c_valid c' = c_valid c
+          /\ c_late c' = s :: c_late c
+          /\ (forall reg, (reg <= length (c_late c))%nat -> In s (late_since reg c'))).
+Proof. exact thm_late_reaches_feeds. Qed.
+Print Assumptions C08_seqbuf_late_reaches_open_feeds.
 
 (* the stable sequence (_getMaxStableCached) is below every skipped sequence and below the high-water
    mark, and everything at or below it is settled -- for every operation list *)
